@@ -16,7 +16,7 @@ from vf import core
 sys.path.insert(0, str(core.VERIF / "translate"))
 import gen_locks
 
-LEVEL = "partial"
+LEVEL = "other"
 
 TSAN_FLAGS = ["-O1", "-g", "-fno-omit-frame-pointer", "-fsanitize=thread", "-D" + core.GUARD + "=1", "-w"]
 # the library destroys its listening socket with Socket_destroy((Socket) serverSocket); the shared simhal allocates a 4-byte
@@ -360,6 +360,7 @@ def dynamic_part(ck, rng, quick):
 
 
 def run(ck):
+    ck.explanation = "PARTIAL: lock discipline, lock order and deadlock freedom are proved in Coq on skeletons regenerated from the C source on every run; data-race freedom is not provable with this model and is searched with ThreadSanitizer and instrumented semaphores on the real threaded server / client."
     quick = ck.tier == "quick"
     rng = core.Rng(ck.seed)
     ck.trusted = [
